@@ -104,4 +104,53 @@ PROPS = {
         "probes_expected": {"quick": ["lock-contended", "digest-mismatch-returned", "proc-crash", "machine-crash", "rename-err", "short-write", "tamper-flip", "registry-wrong-content"],
                             "thorough": ["lock-contended", "lock-timeout", "digest-mismatch-returned", "proc-crash", "machine-crash", "rename-err", "short-write", "tamper-flip", "registry-wrong-content"]},
     },
+    "C01": {
+        "engine": "buildsim",
+        "level": "exploration",
+        "runs": {"quick": 480, "thorough": 60000},
+        "max_wall_s": {"quick": 0, "thorough": 1500},
+        "shrink_s": {"quick": 60, "thorough": 300},
+        "recheck_every": 25,
+        "min_chunk": 8,
+        "rule": ("one evaluation = one generated workspace (1-3 modules, 2-10 files, import DAG incl. public and well-known-type imports, "
+                 "proto2/proto3/editions/unspecified syntax, module and --path/--exclude-path targeting, optionally a workspace-supplied WKT or one "
+                 "planted undefined type) built once as a baseline (one worker, sorted enumeration) and then 3-6 more times under tape-chosen "
+                 "perturbations: arrival order of file contents at the concurrent compile tasks (every bucket Get/Stat/Walk is a scheduling point), "
+                 "walk permutation, module listing order, thread.Parallelize job start/end order, parallelism, and injected get/stat/walk/read errors "
+                 "or cancellation; every image is checked for closure, uniqueness, dependency order, import flags, markers and module metadata "
+                 "against the generator's model and descriptor-by-descriptor against protocompile run directly on the same sources; non-trivial = "
+                 "the scheduler had a real choice or a fault fired; distinct = distinct (released-operation sequence, fired-fault multiset)"),
+        "real": ["bufmodule ModuleSetBuilder / module read buckets / targeting", "bufimage.BuildImage incl. parserAccessorHandler and DFS ordering",
+                 "protocompile (dependency; its worker pool is steered through the files it reads)", "bufprotocompile annotations", "datawkt", "thread.Parallelize"],
+        "stubbed": ["disk: storagemem buckets behind the yielding / fault-injecting wrapper (walk permutation, read faults)"],
+        "assumptions": COMMON_ASSUMPTIONS + [
+            "only the schedule / enumeration-order / read-fault clauses are decided by simulation; the input-universal clauses (all import graphs, all targetings) are sampled as workload",
+            "with parallelism below the number of compile tasks the order in which tasks obtain protocompile's internal semaphore is the Go runtime's choice (ambient executions); divergences found there replay statistically",
+            "the reference compile uses the same protocompile source-info mode constant buf selects",
+        ],
+        "probes_expected": {"quick": ["arrival-order-distinct", "build-failed-under-fault", "planted-error-located", "walk-permuted-nontrivially", "get-err", "cancel"],
+                            "thorough": ["arrival-order-distinct", "build-failed-under-fault", "planted-error-located", "walk-permuted-nontrivially", "get-err", "cancel"]},
+    },
+    "C02": {
+        "engine": "buildsim",
+        "level": "exploration",
+        "runs": {"quick": 320, "thorough": 40000},
+        "max_wall_s": {"quick": 0, "thorough": 1500},
+        "shrink_s": {"quick": 60, "thorough": 300},
+        "recheck_every": 25,
+        "min_chunk": 8,
+        "rule": ("one evaluation = one generated workspace whose outputs - deterministic image bytes, lint and breaking annotations rendered as text "
+                 "and json, formatted files, ls-files list, dependency graph DOT, module digests - are computed once as a baseline and then 3-6 more "
+                 "times under tape-chosen perturbations (file arrival order, thread.Parallelize job start/end order, walk permutation at every bucket, "
+                 "module listing order, parallelism incl. ambient settings below the number of tasks); every output must be byte-identical to the "
+                 "baseline; non-trivial = the scheduler had a real choice; distinct = distinct released-operation sequence"),
+        "real": ["bufimage.BuildImage", "protoencoding wire marshaler", "bufcheck client + builtin lint/breaking rules (in-process check server)", "bufanalysis printers",
+                 "bufformat.FormatModuleSet", "bufimage ls-files helpers", "bufmodule.ModuleSetToDAG / dag DOT", "bufmodule digests", "thread.Parallelize"],
+        "stubbed": ["disk: storagemem buckets behind the yielding wrapper with walk permutation"],
+        "assumptions": COMMON_ASSUMPTIONS + [
+            "outputs are assembled at API level the way bufctl.Controller does, because that is where a bucket can be substituted; the CLI's flag parsing is not exercised",
+            "rule and path listing-order permutations are not yet applied (module listing order is)",
+        ],
+        "probes_expected": {"quick": ["arrival-order-distinct", "walk-permuted-nontrivially"], "thorough": ["arrival-order-distinct", "walk-permuted-nontrivially"]},
+    },
 }
